@@ -28,6 +28,8 @@ Reading guide.  `encodeHost o h v` is `_encode_host(h, validate_host=v)`; the co
 them).  `partition 37 h` splits at the first '%' (zone separator); `ipv4ToStr` / `ipv6ToStr` are hand
 models of `ipaddress.….compressed`; `notRegName` is the `NOT_REG_NAME` regex; `unbracket r` strips the
 brackets of an IP literal (the stored raw host), `bracket` puts them back.  58 = ':', 91/93 = '[' ']'.
+Continued further in C16HeadlineMore4.lean (headline theorems for the proof modules added after the last refresh:
+C16Mapped.lean and the statements repaired after fix 3fbf5b4; the GAPS block below cites them).
 -/
 namespace Yarl
 open Yarl.HostLemmas NetlocLemmas
@@ -214,7 +216,8 @@ example : (Rfc.appendixB Gen.schemeChars (cleanUrl ("http://x".toStr ++ [0x2100]
 
 /-
 GAPS:   (theorems named `C16_headline_…` that are not in this file are in C16HeadlineMore.lean or, where it says so, in
-         C16HeadlineMore3.lean)
+         C16HeadlineMore3.lean / C16HeadlineMore4.lean.  Fix 3fbf5b4 changed the model of `_encode_host` and the
+         STATEMENTS of several theorems cited below: item 9 lists them; items 1, 2, 5, 6 describe them as they are NOW.)
  1. PARTLY CLOSED by C16_idn_encoded_ascii_lower, C16_idn_ctor, C16_idn_build, C16_idn_withHost, C16_idn_encode_idempotent,
     C16_idn_host_decoded, C16_idn_host_reencodes (C16Idn.lean), see C16_headline_idn_lower_ascii, _idn_constructor,
     _idn_validated, _idn_idempotent, _idn_host_decoded, _idn_host_reencodes.  Proved for a NON-ASCII host that is no IP
@@ -223,6 +226,15 @@ GAPS:   (theorems named `C16_headline_…` that are not in this file are in C16H
     out as two hypotheses in C16_headline_idn_lower_ascii) THEN the stored host is that answer, is lower-case ASCII
     reg-name text and is a fixed point of `_encode_host`; with validation on (build / with_host) only non-emptiness of the
     answer is assumed; and IF the answers round-trip (`IdnaRoundTripAt`) THEN the decoded host re-encodes to the raw host.
+    CHANGED by the repair after fix 3fbf5b4 (item 9): C16_idn_build / C16_idn_withHost / C16_headline_idn_validated now
+    conclude a DISJUNCTION — the IDNA answer `r` passed the reg-name screen and IS the result (and a non-empty `r` is a
+    fixed point), OR the answer `x` holds a ':' (`mem 58 x = true`), is an IP literal whose zone passes the screen
+    (`zoneBad x true = false`) and the result is its canonical text (`ipRes x = some r`: an IPv4 literal with zone, or
+    the compressed bracketed IPv6 form); see also C16_headline_idn_validated_two_ways (C16HeadlineMore4.lean).  The
+    statements under `IdnaSaneAt` are unchanged — a sane answer is reg-name text, holds no ':', and the new `if` is not
+    taken (C16_mapped_regname_unchanged, see C16_headline_mapped_regname_unchanged) — but they are SILENT about the
+    hosts of the re-entered branch: such a host FAILS `IdnaSaneAt` (its answer, e.g. "1:0:0:0:0:0:0:2", is not reg-name
+    text: C16_headline_mapped_outside_idna_sane); those hosts are covered by item 9.
     The assumptions are satisfiable with the answers of the real code (C16_idn_sane_satisfiable) and each is needed
     (C16_headline_lower_ascii_fails_for_hostile_idna, C16_headline_idn_host_reencodes_fails_for_no_roundtrip,
     C16_idn_needs_* in C16Idn.lean).
@@ -237,7 +249,9 @@ GAPS:   (theorems named `C16_headline_…` that are not in this file are in C16H
     C16_headline_idempotent_every_host, C16_headline_host_three_routes, C16_headline_host_build_authority_route
     (C16HeadlineMore3.lean).  Proved WITHOUT any assumption on the IDNA answers, from the ONE hypothesis that the host text
     `h` passes `_encode_host(h, validate_host=True)` with result `r` (for a non-ASCII `h` this says that the oracle's
-    answer passed the reg-name screen — a hypothesis about that answer, not an assumption about the package): the
+    answer passed the reg-name screen — or, since fix 3fbf5b4, that the answer holds a ':' and is the text of an IP
+    literal whose zone passed the screen, `r` being its canonical form: C16_headline_idn_validated_two_ways — a
+    hypothesis about that answer, not an assumption about the package): the
     non-validating call returns the same `r` (validation only rejects, never changes the answer); re-encoding the stored
     raw host gives `r` again, validating or not, for EVERY host kind; and with_host on any receiver, build(host=), the
     constructor on ANY input whose authority has the host part `h` (userinfo, port, brackets, any path / query /
@@ -256,6 +270,12 @@ GAPS:   (theorems named `C16_headline_…` that are not in this file are in C16H
     zone passes the reg-name screen (characters let through: '%', ASCII unreserved / sub-delims, letters of either
     case).  An IPv4 text with a zone is kept verbatim when it contains ':' or ends in a digit; otherwise it is NOT an IP
     literal for yarl and is lower-cased like a registered name (`URL("http://1.2.3.4%ETH/").raw_host == "1.2.3.4%eth"`).
+    NOTE (fix 3fbf5b4, item 9): these theorems are about a host that IS an IP literal as it stands.  For a non-ASCII
+    host whose IDNA ANSWER is an IPv6 text with a zone, the zone of the ANSWER is copied verbatim and screened when
+    validating (C16_mapped_ipv6_zone, see C16_headline_mapped_ipv6_zone, C16HeadlineMore4.lean).  The general
+    (non-headline) form C16_zone_validated_general (C16.lean) was repaired: its non-ASCII alternative now reads "the
+    result is the IDNA answer, which passed the screen, OR the answer holds a ':' and the result is `ipRes` of it, its
+    own zone screened".
  3. CLOSED by C16_str_brackets_ipv6, C16_str_brackets_build_host, C16_str_brackets_build_authority,
     C16_str_brackets_with_host, C16_strShows_infix, C16_subcomponents_bracket_ipv6 (C16More.lean), see
     C16_headline_str_brackets_constructor, _build_host, _build_authority, _with_host, C16_headline_subcomponents_bracket_ipv6
@@ -292,10 +312,22 @@ GAPS:   (theorems named `C16_headline_…` that are not in this file are in C16H
  5. CLOSED (by stating exactly what holds) by C16_build_authority_host, C16_build_authority_accepts_more (C16More.lean), see
     C16_headline_build_authority_host, C16_headline_validation_fails_for_build_authority.  "build() and with_host()
     reject …" is stated as "success ⇒ `_encode_host(…, True)` succeeded ⇒ result is an IP literal or in the reg-name
-    language" (C16_headline_validation) for build(host=) and with_host.  For `build(authority=…)` the host is encoded
+    language" (C16_headline_validation) for build(host=) and with_host.  CHANGED by the repair after fix 3fbf5b4 (item
+    9): the third clause of C16_headline_validation (C16_validated_general) has a THIRD alternative now — the host is an
+    IP literal, OR the result passes `NOT_REG_NAME`, OR the host is non-ASCII and its IDNA answer is the text of an IP
+    literal (which is then stored in canonical form); C16_headline_never_injects (C16_validated_chars) likewise: ':' '['
+    ']' occur only for an IP-literal host OR a non-ASCII host whose IDNA answer is one.  The readable form, with the
+    shape of the result in each case and for ANY oracle, is C16_headline_validated_host_invariant
+    (C16HeadlineMore4.lean, from C16_mapped_validated_invariant): reg-name text, or canonical IPv4 [%zone], or bracketed
+    compressed IPv6 [%zone], every zone screened, made from the host itself or from the IDNA answer (holding a ':') of a
+    non-ASCII host.  An IDNA answer with a ':' that is NO IP literal is rejected by validation (second alternative of
+    C16_headline_idn_validated_two_ways excluded, first needs no ':').  For `build(authority=…)` the host is encoded
     with validation OFF (by design in yarl): the clause is FALSE there (`authority="EX^ample{}.com"` is stored as
     "ex^ample{}.com"); what holds instead — scheme lowered, NFKC screen for a non-ASCII authority, `split_netloc`, then
-    `_encode_host(host, False)` with its four cases — is C16_headline_build_authority_host.
+    `_encode_host(host, False)` with its four cases — is C16_headline_build_authority_host.  CHANGED (item 9): there
+    are FIVE cases now; the fifth — a non-ASCII host whose IDNA answer `x` holds a ':' — says that `x` went through
+    `_encode_host` again: the result is the bracketed compressed form when `x` is an IPv6 text, or `x` itself, or the
+    ASCII-lower-cased `x` (no screen on this route: a hostile answer "a:81" is stored as it is, C16_idn_needs_no_colon).
     `encoded=True`: CLOSED for build by C16_build_encoded_skips_host_processing (C16More2.lean), see
     C16_headline_build_encoded_skips_host_processing (C16HeadlineMore3.lean): `build(…, encoded=True)` stores the
     `authority` argument — or `host[:port]` around the `host` argument — verbatim, scheme as given, no cache, and does not
@@ -317,10 +349,13 @@ GAPS:   (theorems named `C16_headline_…` that are not in this file are in C16H
     (C16HeadlineMore3.lean).  `with_host` does not call `_check_netloc` (it validates instead).  Proved at URL level:
     whatever the argument and whatever the oracles answer, if `with_host` returns a URL, the raw host it stores consists of
     characters of the validated `_encode_host` result, has none of '@' '/' '?' '#' ' ' and has ':' '[' ']' only for an
-    IP-literal argument.  That is NOT the clause as written: "is rejected" is FALSE on this route for a hypothetical `idna`
-    package that answers reg-name text for "a／b" (U+FF0F) — `with_host` then stores that answer while the constructor
-    rejects the same host — and holds with the answers of the real code on that input only because the stdlib answer
-    "a/b" fails the reg-name screen (evaluated, both backends).  `build(host=)` is in the same position as `with_host`
+    IP-literal argument — or, as C16_headline_with_host_needs_no_nfkc_screen reads since the repair after fix 3fbf5b4
+    (item 9), for a non-ASCII argument whose IDNA answer is the text of an IP literal (stored in canonical form, so the
+    ':' are those of a compressed IPv6 literal).  That is NOT the clause as written: "is rejected" is FALSE on this
+    route for a hypothetical `idna` package that answers reg-name text for "a／b" (U+FF0F) — `with_host` then stores that
+    answer while the constructor rejects the same host — and holds with the answers of the real code on that input only
+    because the stdlib answer "a/b" fails the reg-name screen (evaluated, both backends).
+    `build(host=)` is in the same position as `with_host`
     (validation, no `_check_netloc`; C16_headline_never_injects at `_encode_host` level, C16_headline_host_three_routes
     (2) for the stored raw host) — no theorem phrased with NFKC.  `build(encoded=True)` is not screened: the authority is
     stored verbatim (item 5).
@@ -337,5 +372,70 @@ GAPS:   (theorems named `C16_headline_…` that are not in this file are in C16H
     in the headers) still lists five characters: the library rejects MORE than the text says, nothing less.
     Only the REJECTING direction is stated as a theorem; when the screen accepts is read off the definition of
     `checkNetloc` (C16_headline_build_authority_host records `checkNetloc … = .ok ()` for an accepted non-ASCII authority).
+ 9. NEW.  Fix 3fbf5b4 ("canonicalize an IP-literal that only appears after IDNA mapping"; e.g. fullwidth digits,
+    "[１:0:0:0:0:0:0:2]" ↦ "[1::2]").  `_encode_host`, after `host = _idna_encode(host)` for a non-ASCII host that is no
+    IP literal, now does `if ":" in host: return _encode_host(host, validate_host)`.
+    THE MODEL: `encodeHost` (YarlModel/Host.lean) hands an IDNA answer holding a ':' to `encodeHostA`, a COPY of
+    `encodeHost` whose non-ASCII branch is ValueError — not a recursive call.  The copy IS `_encode_host` on ASCII text
+    (C16_mapped_reentry_ascii) and `_idna_encode` answers ASCII text by construction (`….decode("ascii")`); but the
+    model's oracle is NOT constrained to ASCII answers, and on a non-ASCII answer holding a ':' that is no IP literal
+    the model says ValueError where the real code would ask IDNA again (C16_mapped_reentry_nonascii; see
+    C16_headline_mapped_reentry, C16HeadlineMore4.lean) — unreachable with the real `_idna_encode`, trusted as such.
+    THE REPAIR changed the STATEMENTS of existing theorems (all rebuilt; doc comments updated in place):
+    (a) a new ALTERNATIVE "… or the IDNA answer `a` holds a ':' (`mem 58 a = true`), is the text of an IP literal, and
+        the result is its canonical form (`ipRes a = some r`, `zoneBad a true = false`)": C16_idna_validated,
+        C16_validated_general, C16_zone_validated_general, C16_validated_chars (C16.lean); C16_idn_validated_sane,
+        C16_idn_build, C16_idn_withHost (C16Idn.lean; the common part is the new C16_idn_validated_result);
+        C16_build_authority_host (C16More.lean: a fifth case), C16_with_host_needs_no_nfkc_screen (C16More2.lean); and
+        the headline theorems C16_headline_regname (second clause), C16_headline_validation (third clause),
+        C16_headline_never_injects, C16_headline_idn_validated, C16_headline_build_authority_host,
+        C16_headline_with_host_needs_no_nfkc_screen;
+    (b) a new HYPOTHESIS: C16_result_lower_ascii / C16_headline_lower_ascii take `h37a : isAscii h = false → ∀ a,
+        idnaEncode o h = .ok a → 37 ∉ a` ("the IDNA answer of a non-ASCII host holds no '%' either": an answer that
+        spells an IP literal with a zone is canonicalised and ITS zone copied verbatim) — NEEDED:
+        C16_headline_lower_ascii_fails_for_mapped_zone (C16HeadlineMore4.lean: hypothetical answer "::1%ETH" ↦
+        "[::1%ETH]", validation on); Idn.encodeHost_idn (C16Idn.lean) takes `h58 : mem 58 a = false`,
+        Idn.encodeHost_idn_inv takes `hc : ∀ a, idnaEncode o h = .ok a → mem 58 a = false` (the pre-fix forms, for an
+        answer without ':'; also the new C16_idna_validated_no_colon, C16.lean).
+    PROVED about the re-entered branch (C16Mapped.lean, see C16HeadlineMore4.lean), for a non-ASCII host that is no IP
+    literal as it stands, whose last character the `str.isdigit` oracle knows (`looksIP o host = .ok b`), with IDNA
+    answer `a`: if `a` is the text of an IPv6 address WITHOUT zone, `_encode_host` returns "[" compressed "]" with and
+    without validation, a fixed point on the stored raw host, which parses to the same address (C16_mapped_ipv6,
+    C16_mapped_ipv6_fixed_point, C16_mapped_ipv6_canonical, see C16_headline_mapped_ipv6_canonical); WITH a zone, the
+    zone of the answer is copied verbatim inside the brackets, ValueError iff validation is on and the lower-cased zone
+    fails the screen (C16_mapped_ipv6_zone, see C16_headline_mapped_ipv6_zone) — so the zone / '%' case IS covered for
+    IPv6; an answer without ':' (every reg-name answer) takes the pre-fix path (C16_mapped_regname_unchanged,
+    C16_mapped_no_colon_unchanged, see C16_headline_mapped_regname_unchanged).
+    For ANY host and ANY oracle (nothing assumed of the IDNA answers): the validated result is reg-name text or
+    canonical IPv4 [%zone] or bracketed compressed IPv6 [%zone], every zone screened, made from the host or from its
+    IDNA answer (C16_mapped_validated_invariant, see C16_headline_validated_host_invariant;
+    C16_headline_idn_validated_two_ways); it is ASCII, holds none of '@' '/' '?' '#' ' ', is a fixed point, and the
+    non-validating call returns the same (C16_mapped_validated_fixed_point, see C16_headline_validated_fixed_point).
+    Without validation the result for a host without '%' is ASCII IF the IDNA answers are ASCII — a hypothesis on the
+    oracle (C16_mapped_result_ascii, see C16_headline_result_ascii_unvalidated).  The input of the fix is evaluated at
+    `_encode_host`, constructor (both backends) and `with_host` level with a sample oracle holding the answers of the
+    real code (C16_mapped_example, _example_url, _example_with_host, see C16_headline_mapped_example).
+    STILL OPEN / TRUSTED:
+    (i) the IP-literal result of the re-entered branch is characterised EXACTLY only for an IPv6 answer (with or without
+        zone); for an answer that is IPv4 text followed by a zone holding the ':' ("1.2.3.4%a:b") only the shape of
+        C16_headline_validated_host_invariant (validation on) is stated; an IPv4 answer WITHOUT ':' (e.g. fullwidth
+        digits in a dotted quad) is not re-entered at all — it is returned as the IDNA answer, and no theorem says that
+        it is the canonical IPv4 spelling;
+    (ii) validation OFF (constructor, `build(authority=)`) with an answer that holds a ':' but is NO IP literal: the
+        re-entry lower-cases and STORES it (fifth case of C16_headline_build_authority_host; the hypothetical answer
+        "a:81" injects a port: C16_idn_needs_no_colon, C16Idn.lean) — unchanged by the fix, excluded by `IdnaSaneAt`
+        only (the header of C16Idn.lean lists real answers of this kind, "[ü:x]" ↦ "xn--:x-wka");
+    (iii) `IdnaSaneAt` is FALSE for the host of the fix (C16_headline_mapped_outside_idna_sane) and, by the same
+        argument — an answer holding a ':' is not reg-name text, `notRegName_false_no_colon` —, for every host of the
+        re-entered branch (no general theorem stated): the theorems of item 1 that assume `IdnaSaneAt`, and the run-time
+        check of the oracle table against `IdnaAnswerSane` (header of C16Idn.lean: answers outside the assumption only
+        limit the domain of the per-host theorems), say nothing about such hosts; that the real `idna` package maps
+        fullwidth digits as the sample oracle `C16_mapped_oracle` says is an ORACLE fact, trusted base;
+    (iv) no general URL-LEVEL theorem is specific to the re-entered branch (only the computed example); the general
+        URL-level theorems whose hypothesis is "passes validation" (C16_headline_host_three_routes,
+        C16_headline_host_build_authority_route) do apply to it;
+    (v) "the decoded host re-encodes to the same raw host" for such a URL is the IP-literal case
+        (C16_headline_host_reencodes_ip: `URL.host` is the raw host "1::2"), not the original fullwidth text — which is
+        NOT recovered, by design.
 -/
 end Yarl
